@@ -245,7 +245,10 @@ def canonical_events(rr):
             else:
                 emit(rec, {"t": "mut", "op": "write", "path": pcomps(rec["path"]), "off": int(rec["at"]), "data": data, "ok": int(rec["ok"] == "1"), "cut": int(rec.get("cut", "0"))})
         elif k == "mkdir_all":
-            emit(rec, {"t": "mut", "op": "mkdir", "path": pcomps(rec["path"]), "ok": int(rec["ok"] == "1")})
+            ev = {"t": "mut", "op": "mkdir", "path": pcomps(rec["path"]), "ok": int(rec["ok"] == "1")}
+            if rec["ok"] != "1" and rec.get("deepest"):
+                ev["made"] = pcomps(rec["deepest"])      # a failed create_dir_all may have created some ancestors
+            emit(rec, ev)
         elif k == "piece_begin":
             key = rec["piece"]
             order.append(key)
@@ -286,6 +289,8 @@ def event_line(ev):
         return "read %s %d %d %s" % (penc(ev["path"]), ev["off"], ev["len"], data)
     op = ev["op"]
     if op == "mkdir":
+        if not ev["ok"] and ev.get("made") is not None:
+            return "mut mkdirp %s %s" % (penc(ev["path"]), penc(ev["made"]))
         return "mut mkdir %s %d" % (penc(ev["path"]), ev["ok"])
     if op == "openw":
         return "mut openw %s %d %d %d" % (penc(ev["path"]), ev["c"], ev["tr"], ev["ok"])
